@@ -37,6 +37,19 @@ Case kinds
                  regions, empty region list, ReferencedSegment / VolumeSurface built with images / an EMPTY image list
                  (refused since fix D107) / a series / nothing, volume surfaces of 0..3 items of every graphic type; observed: the stage that
                  refuses (object / group) with the exception class, or - when accepted - every accessor of the group
+  acc_values   : MEASUREMENT VALUES as real numbers instead of small integers: Python floats whose shortest repr needs
+                 more than the 16 characters of a DS string (1/3, 0.1+0.2, 1000*pi, random doubles of every magnitude,
+                 subnormal / huge), floats that fit, integral floats, Python ints up to 16 characters; few values per
+                 report so that they collide between groups.  x the HISTORY of the report: in memory, from_sequence
+                 of the in-memory object, Comprehensive3DSR.from_dataset, save_as + srread, the bare content tree
+                 through dcmwrite + dcmread (explicit / implicit VR) + MeasurementReport.from_sequence, and two file
+                 round trips in a row, the DICOM JSON model (to_json + from_json).  Every value is observed EXACTLY (key of the double, see vkey); model:
+                 run_accessors_enc (records; Floating Point Value present iff the value was a float; the encoded
+                 histories pass the tree through `encode` with the DS strings pydicom writes as table)
+  acc_num_tree : NUM items as other writers leave them, in memory: Floating Point Value dropped, Numeric Value
+                 re-read from its DS string (what decoding yields), Floating Point Value inconsistent with Numeric
+                 Value (the exact attribute wins), Floating Point Value added to an integer; tree rendered item by
+                 item with both attributes (model: run_tree_accessors), oracle from the attribute definitions of PS3.3
 In every kind a code returned by an accessor is numbered by what it compares EQUAL to (both operand orders,
 Code and CodedConcept) among the variants of its code value, not only by its attributes (code_id).
 """
@@ -63,6 +76,10 @@ ORACLE_PREMISES = [
     'values, template identification) item for item - checked by the file round-trip cases, not proved',
     'template construction code beyond the modelled item skeleton (value validation, graphic data, units) '
     'is exercised, not proved',
+    'DICOM encoding of a content tree reproduces every item except that Numeric Value (VR DS) comes back as the number '
+    'its decimal string of at most 16 characters says (`trunc`, a parameter of the theorems); the correspondence run '
+    'passes the strings pydicom writes (DS(x, auto_format=True) for floats, the digits of an int that fits) as a table; '
+    'measurement values are abstract integers, injective keys of the doubles (vkey)',
 ]
 MODELLED = ('sr/utils.find_content_items (non-recursive); sr/templates._count_roi_items, _contains_planar_rois, '
             '_contains_volumetric_rois, _get_roi_reference_items, _contains_code/uidref/image_items, '
@@ -71,13 +88,15 @@ MODELLED = ('sr/utils.find_content_items (non-recursive); sr/templates._count_ro
             'method, finding_sites, reference_type, roi, referenced_segmentation_frame, referenced_segment, '
             'source_images, get_measurements, get_qualitative_evaluations) and the item skeleton the group '
             'constructors produce; content.py ReferencedSegment/ReferencedSegmentationFrame/VolumeSurface.from_sequence '
-            '(classification of items only); the accessors incl. their RuntimeError branches are also compared on '
+            '(classification of items only); value_types.NumContentItem.value (Floating Point Value before Numeric Value) and '
+            'which of the two NumContentItem.__init__ writes (record level: with_fp; encoding: encode); the accessors incl. their RuntimeError branches are also compared on '
             'damaged trees and on the shipped documents (run_tree_accessors); the argument checks of '
             'PlanarROI... / VolumetricROIMeasurementsAndQualitativeEvaluations.__init__, '
             '_ROIMeasurementsAndQualitativeEvaluations.__init__, content.py ReferencedSegment.__init__ / '
             'VolumeSurface.__init__ (sources, number of graphic data items per graphic type) (run_construct_*)')
 STRATA = ['report_mem', 'report_doc', 'report_file', 'report_notid', 'acc', 'refuse', 'tree', 'fixture',
-          'report_codes', 'acc_codes', 'acc_tree', 'acc_fixture', 'report_opts', 'acc_opts', 'construct']
+          'report_codes', 'acc_codes', 'acc_tree', 'acc_fixture', 'report_opts', 'acc_opts', 'construct',
+          'acc_values', 'acc_num_tree']
 RULE = ('reports of 0..5 groups (planar: 2D region of each graphic type, 3D region, segmentation frame, region in '
         'space; volumetric: 1..3 regions, segment with image/series sources, volume surface, region in space; '
         'image groups), values from small pools so that collisions between groups happen; per report 10 sampled '
@@ -95,7 +114,12 @@ RULE = ('reports of 0..5 groups (planar: 2D region of each graphic type, 3D regi
         'queries return observed separately, exceptions included; acc_fixture: the same on the shipped documents; '
         'construct: 8 argument combinations per case (0..3 reference arguments of right / wrong class, region lists of '
         '0..3 items incl. 3D regions and foreign objects, segments / surfaces built with images / EMPTY images / series / '
-        'both / nothing, surfaces of 0..3 items of each graphic type). '
+        'both / nothing, surfaces of 0..3 items of each graphic type); '
+        'acc_values: 1..4 groups whose 1..4 measurements draw from 2..5 real values per report (ints up to 16 characters, '
+        'floats that fit a DS string, floats that do not: classics such as 1/3 and random doubles of exponent -60..70, '
+        'subnormal / largest doubles), observed exactly, x 8 histories (memory, from_sequence, from_dataset, file, two files, '
+        'dcmwrite/dcmread explicit / implicit VR, to_json/from_json); acc_num_tree: 1..4 rewritings of the two number attributes of NUM items '
+        '(drop / restring / inconsistent / added Floating Point Value) in memory. '
         'non-trivial = at least two groups and a non-empty, non-total answer or a refusal; distinct by case hash')
 NOT_EXECUTED = []
 EXHAUSTIVE = {'quick': False, 'thorough': False}
@@ -253,6 +277,52 @@ def code_id(c, hd=False):
     if eq == [z]:
         return z
     return ['code reads as', z, 'but compares equal to', eq]
+
+
+# ---- measurement values: the model integer of a number is an injective key of the double --------------------
+# A value of a case is a Python int (written as such) or ['f', float.hex()] (a Python float, kept exactly).
+def _pv(v):
+    """value of a case -> the Python number handed to sr.Measurement"""
+    return float.fromhex(v[1]) if isinstance(v, (list, tuple)) else v
+
+
+def vkey(x):
+    """number returned by the implementation -> model integer: the number itself when it is an integer below
+    2**53 (so the integer-valued cases read as before), else 2**53 + the IEEE-754 bit pattern.  Injective on the
+    doubles up to -0.0 == 0.0; two values get the same key iff they compare equal."""
+    import struct
+    x = float(x)
+    if abs(x) < 2 ** 53 and x == int(x):       # (false for nan / inf: they get their bit pattern)
+        return int(x)
+    return 2 ** 53 + struct.unpack('<Q', struct.pack('<d', x))[0]
+
+
+def unkey(k):
+    """the number behind a key (for messages)"""
+    import struct
+    return float(k) if abs(k) < 2 ** 53 else struct.unpack('<d', struct.pack('<Q', k - 2 ** 53))[0]
+
+
+def _vk(v):
+    return vkey(_pv(v))
+
+
+def fp_code(k):
+    """C16_Model.fp_code: Z -> Z minus 0 (0 marks an absent Floating Point Value)"""
+    return k + 1 if k >= 0 else k
+
+
+def _ds_str(v):
+    """the decimal string (VR DS, at most 16 characters) that stands for the number in an ENCODED data set: an int
+    that fits is written digit by digit, everything else is formatted by pydicom (DS(..., auto_format=True))"""
+    from pydicom.valuerep import DS
+    v = _pv(v)
+    if isinstance(v, int) and len(str(v)) <= 16:
+        return str(v)
+    return str(DS(float(v), auto_format=True))
+
+
+ENCODING_IO = ('file', 'file2', 'dcm', 'dcm_implicit')
 
 
 # ---------------------------------------------------------------------------------------------
@@ -487,6 +557,83 @@ def gen_cases(rng, tier):
     cases += _gen_acc_tree_cases(rng, tier)
     cases += _gen_opts_cases(rng, tier)
     cases += _gen_construct_cases(rng, tier)
+    cases += _gen_value_cases(rng, tier)
+    return cases
+
+
+# ---- measurement values ---------------------------------------------------------------------------------------
+def _value(rng):
+    """one measurement value: [class, value]; floats are kept as hex strings (exact)"""
+    import math
+    f = lambda x: ['f', float(x).hex()]  # noqa: E731
+    r = rng.random()
+    if r < 0.12:
+        return rng.randint(-5, 40)
+    if r < 0.22:        # ints up to 16 characters (written digit by digit; no Floating Point Value)
+        return rng.choice([123456789012, 10 ** 15 + 1, 2 ** 53 - 1, -999999999999999, 10 ** 12,
+                           rng.randint(10 ** 9, 10 ** 15), -rng.randint(10 ** 9, 10 ** 14)])
+    if r < 0.36:        # floats whose repr fits in a DS string
+        return f(rng.choice([10.5, 42.25, 0.125, 7.0, 66.0, 2.5e-3, 1e-3, 100.0, -3.75, 0.1, 1e22, 1.5e300, 5e-324,
+                             float(rng.randint(-50, 50)), rng.randint(-4000, 4000) / 8.0]))
+    if r < 0.62:        # the classics: repr longer than 16 characters
+        return f(rng.choice([1.0 / 3.0, 0.1 + 0.2, 1000.0 * math.pi, 200.0 / 3.0, math.sqrt(2.0) * 100.0,
+                             -1.0 / 7.0, 1234.5678901234567, -123.45678901234567, 1.0e-3 / 3.0, math.e * 1e-5,
+                             2.0 / 3.0 * 1e9, 1.2345678901234568e+17, 9007199254740994.0, 0.99999999999999989,
+                             1.7976931348623157e308, 2.2250738585072014e-308, 4.9406564584124654e-321,
+                             rng.randint(1, 99) / rng.choice([3.0, 7.0, 9.0, 11.0, 13.0])]))
+    if r < 0.8:         # random doubles of every magnitude
+        return f(math.ldexp(rng.random() - 0.5, rng.randint(-60, 70)))
+    if r < 0.9:
+        return f(rng.uniform(-1000.0, 1000.0))
+    return f(round(rng.uniform(0.0, 100.0), rng.randint(1, 14)))
+
+
+def _values_group(rng, g, pool):
+    g = dict(g)
+    g['meas'] = [[rng.randint(140, 143), rng.choice(pool)] for _ in range(rng.choice([1, 2, 3, 4]))]
+    return g
+
+
+NUM_MUTS = ['drop_fd', 'restring', 'restring_drop_fd', 'restring_drop_fd', 'fd_other', 'fd_other', 'add_fd']
+
+
+def _gen_value_cases(rng, tier):
+    n = {'quick': 40, 'thorough': 400, 'search': 80}[tier]
+    hist = ['mem', 'parsed', 'doc', 'file', 'file', 'file2', 'dcm', 'dcm', 'dcm_implicit', 'json']
+    cases = []
+    for j in range(n):
+        ng = rng.choice([1, 2, 3, 4])
+        notid = rng.choice([0.0, 0.0, 1.0])
+        pool, npool = [], rng.choice([2, 3, 5])
+        while len(pool) < npool:
+            v = _value(rng)
+            if _vk(v) not in [_vk(x) for x in pool]:        # one spelling per number (7 and 7.0 do not meet)
+                pool.append(v)
+        groups = [_values_group(rng, _group(rng, i, notid=notid, allow_ris=False), pool) for i in range(ng)]
+        for g in groups:
+            if not g['has_tid'] and g['ref'][0] == 'rs' and len(g['ref'][1]) < 2:
+                g['ref'][1].append([g['ref'][1][0][0]] + _src(rng))
+        allnames = [m[0] for g in groups for m in g['meas']]
+        cases.append({'kind': 'acc_values', 'groups': groups, 'io': hist[j % len(hist)],
+                      'pre': rng.choice(['person', 'device']), 'hd_codes': rng.random() < 0.5,
+                      'mname': rng.choice(allnames + [149]) if rng.random() < 0.7 else None,
+                      'ename': None})
+    for j in range(n // 2):
+        ng = rng.choice([1, 2, 3])
+        pool = []
+        while len(pool) < 3:
+            v = _value(rng)
+            if _vk(v) not in [_vk(x) for x in pool]:
+                pool.append(v)
+        groups = [_values_group(rng, _group(rng, i, allow_ris=False), pool) for i in range(ng)]
+        muts = []
+        for _ in range(rng.choice([1, 2, 3, 4])):
+            gi = rng.randrange(ng)
+            muts.append([rng.choice(NUM_MUTS), gi, rng.randrange(len(groups[gi]['meas'])), rng.choice(pool)])
+        allnames = [m[0] for g in groups for m in g['meas']]
+        cases.append({'kind': 'acc_num_tree', 'groups': groups, 'io': rng.choice(['mem', 'mem', 'parsed']),
+                      'pre': 'person', 'hd_codes': False, 'nmuts': muts,
+                      'mname': rng.choice(allnames + [149]) if rng.random() < 0.7 else None, 'ename': None})
     return cases
 
 
@@ -980,7 +1127,7 @@ def _build_group(g, hd_codes):
         finding_sites=[sr.FindingSite(C(s)) for s in g['sites']] or None,
         session=None if g['session'] is None else f"s{g['session']}",
         time_point_context=None if g['tp'] is None else sr.TimePointContext(time_point='tp', time_point_type=C(g['tp'])),
-        measurements=[sr.Measurement(name=C(n), value=v, unit=codes.UCUM.Millimeter, **_mk_meas_opts(g, j, C))
+        measurements=[sr.Measurement(name=C(n), value=_pv(v), unit=codes.UCUM.Millimeter, **_mk_meas_opts(g, j, C))
                       for j, (n, v) in enumerate(g['meas'])] or None,
         qualitative_evaluations=[sr.QualitativeEvaluation(name=C(n), value=C(v)) for n, v in g['evals']] or None,
     )
@@ -1113,8 +1260,28 @@ def _build_report(c):
         del im.ContentSequence[0]
     for m in c.get('muts', []):
         _apply_mutation(rep, m)
+    for m in c.get('nmuts', []):
+        _apply_num_mutation(rep, m)
     if c['io'] == 'mem':
         return rep
+    if c['io'] == 'parsed':     # the in-memory object parsed again (copies every item)
+        return sr.MeasurementReport.from_sequence(rep)
+    if c['io'] == 'json':       # the content tree through the DICOM JSON model (pydicom writes DS as full numbers)
+        import pydicom
+        ds = pydicom.Dataset()
+        for elem in rep[0]:
+            ds.add(elem)
+        return sr.MeasurementReport.from_sequence([pydicom.Dataset.from_json(ds.to_json())])
+    if c['io'] in ('dcm', 'dcm_implicit'):
+        # the bare content tree written into a data set, ENCODED and decoded (no SR document around it)
+        import pydicom
+        ds = pydicom.Dataset()
+        for elem in rep[0]:
+            ds.add(elem)
+        b = io.BytesIO()
+        pydicom.dcmwrite(b, ds, implicit_vr=(c['io'] == 'dcm_implicit'), little_endian=True, enforce_file_format=False)
+        b.seek(0)
+        return sr.MeasurementReport.from_sequence([pydicom.dcmread(b, force=True)])
     ev = _evidence(rep[0])
     if c.get('pre') == 'library':
         ev = ev + [synth.base('ct_image.dcm')]
@@ -1127,6 +1294,15 @@ def _build_report(c):
     b = io.BytesIO()
     doc.save_as(b)
     b.seek(0)
+    if c['io'] == 'file2':      # a second document made of the content read back, written and read again
+        first = sr.srread(b)
+        doc2 = sr.Comprehensive3DSR(evidence=ev, content=first.content[0], series_number=2,
+                                    series_instance_uid='1.2.826.0.1.3680043.8.498.6.3',
+                                    sop_instance_uid='1.2.826.0.1.3680043.8.498.6.4', instance_number=1,
+                                    manufacturer='verif')
+        b = io.BytesIO()
+        doc2.save_as(b)
+        b.seek(0)
     return sr.srread(b).content
 
 
@@ -1249,6 +1425,41 @@ def _apply_mutation(rep, m):
             items[rng.choice(idx)].RelationshipType = rng.choice(['HAS PROPERTIES', 'INFERRED FROM'])
 
 
+def _apply_num_mutation(rep, m):
+    """NUM items as other writers leave them (in memory)"""
+    from pydicom.valuerep import DS
+    name, gi, mi, other = m
+    grp = _groups_container(rep).ContentSequence[gi]
+    nums = [it for it in grp.ContentSequence if it.ValueType == 'NUM']
+    mv = nums[mi].MeasuredValueSequence[0]
+    if name in ('restring', 'restring_drop_fd'):      # Numeric Value as decoding yields it: the number its string says
+        mv.NumericValue = DS(str(mv.NumericValue))
+    if name in ('drop_fd', 'restring_drop_fd') and 'FloatingPointValue' in mv:
+        del mv.FloatingPointValue
+    if name == 'fd_other':                            # inconsistent attributes: Floating Point Value is the exact one
+        mv.FloatingPointValue = float(_pv(other))
+    if name == 'add_fd':
+        mv.FloatingPointValue = float(mv.NumericValue)
+
+
+def _num_shadow(c):
+    """(Numeric Value as a number, Floating Point Value or None) of every measurement after the NUM mutations,
+    from the definitions of the two attributes (PS3.3 C.18.1) - independent of the implementation"""
+    sh = [[[float(_pv(v)), float(_pv(v)) if isinstance(_pv(v), float) else None, _ds_str(v)] for _, v in g['meas']]
+          for g in c['groups']]
+    for name, gi, mi, other in c.get('nmuts', []):
+        e = sh[gi][mi]
+        if name in ('restring', 'restring_drop_fd'):
+            e[0] = float(e[2])
+        if name in ('drop_fd', 'restring_drop_fd'):
+            e[1] = None
+        if name == 'fd_other':
+            e[1] = float(_pv(other))
+        if name == 'add_fd':
+            e[1] = e[0]
+    return sh
+
+
 # ---------------------------------------------------------------------------------------------
 # running the implementation
 # ---------------------------------------------------------------------------------------------
@@ -1313,7 +1524,7 @@ def _accessors(g, K, mname, ename, hd_codes, srt=False, alt=False):
 
     def mlist(name):
         ms = g.get_measurements(name=None if name is None else code_of(name, hd_codes, srt, alt))
-        return [[code_id(m.name), int(round(float(m.value)))] for m in ms]
+        return [[code_id(m.name), vkey(m.value)] for m in ms]
 
     def elist(name):
         es = g.get_qualitative_evaluations(name=None if name is None else code_of(name, hd_codes, srt, alt))
@@ -1411,7 +1622,7 @@ def _accessors_tree(g, K, mname_code, ename_code, ids):
         return ['series', ids.uid(obj.source_series_for_segmentation.value)]
 
     def mlist(name):
-        return [[cid(m.name), int(round(float(m.value)))] for m in g.get_measurements(name=name)]
+        return [[cid(m.name), vkey(m.value)] for m in g.get_measurements(name=name)]
 
     def elist(name):
         return [[cid(e.name), cid(e.value)] for e in g.get_qualitative_evaluations(name=name)]
@@ -1513,13 +1724,13 @@ def run_impl(c):
         return _run_fixture_acc(c)[0]
     if k == 'construct':
         return [_run_construct(it) for it in c['items']]
-    if k in ('acc_tree', 'acc_opts'):
+    if k in ('acc_tree', 'acc_opts', 'acc_num_tree'):
         rep = _build_report(c)
         return _run_acc_tree(rep, None if c['mname'] is None else code_of(c['mname']),
                              None if c['ename'] is None else code_of(c['ename']), _AlphaIds)
     rep = _build_report(c)
     fo = _fopts(c)
-    if k in ('acc', 'acc_codes'):
+    if k in ('acc', 'acc_codes', 'acc_values'):
         out = []
         for K, fn in (('P', rep.get_planar_roi_measurement_groups), ('V', rep.get_volumetric_roi_measurement_groups),
                       ('I', rep.get_image_measurement_groups)):
@@ -1575,7 +1786,7 @@ def _coq_ref(r):
 
 def _coq_group(g):
     kind = {'P': 'Planar', 'V': 'Volumetric', 'I': 'ImageK'}[g['k']]
-    pm = lambda l: '[' + '; '.join(f'({cz(a)}, {zlit(b)})' for a, b in l) + ']'  # noqa: E731
+    pm = lambda l: '[' + '; '.join(f'({cz(a)}, {zlit(_vk(b))})' for a, b in l) + ']'  # noqa: E731
     pe = lambda l: '[' + '; '.join(f'({cz(a)}, {cz(b)})' for a, b in l) + ']'  # noqa: E731
     sites = '[' + '; '.join(cz(x) for x in g['sites']) + ']'
     return (f"(Group {kind} {g['tuid']} {g['tid']} {ocz(g['cat'])} {ocz(g['finding'])} {ocz(g['method'])} "
@@ -1651,7 +1862,10 @@ def render_item(ids, ds, depth):
         a = ids.uid(ds.UID)
     elif vt == 'NUM':
         mv = ds.MeasuredValueSequence
-        a = int(round(float(mv[0].NumericValue))) if len(mv) else 0
+        if len(mv):       # both sources of the value: Numeric Value (DS) and, if present, Floating Point Value (FD)
+            a = vkey(float(mv[0].NumericValue))
+            if 'FloatingPointValue' in mv[0]:
+                b = fp_code(vkey(float(mv[0].FloatingPointValue)))
     elif vt in ('IMAGE', 'COMPOSITE'):
         a = ids.uid(ds.ReferencedSOPSequence[0].ReferencedSOPClassUID)
         b = ids.uid(ds.ReferencedSOPSequence[0].ReferencedSOPInstanceUID)
@@ -1687,7 +1901,7 @@ def coq_term(c):
         common.import_highdicom()
         c2 = dict(c, io='mem')
         return _tree_term(_build_report(c2), c['filters'])
-    if k in ('acc_tree', 'acc_opts'):
+    if k in ('acc_tree', 'acc_opts', 'acc_num_tree'):
         common.import_highdicom()
         root = render_item(_Ids(), _build_report(dict(c, io='mem'))[0], 4)
         return f"(run_tree_accessors {root} {ocz(c['mname'])} {ocz(c['ename'])})"
@@ -1695,6 +1909,13 @@ def coq_term(c):
     pre = PRE_ITEMS if c.get('pre') == 'library' else '[]'
     if k in ('acc', 'acc_codes'):
         return f"(run_accessors {pre} {gs} {ocz(c['mname'])} {ocz(c['ename'])})"
+    if k == 'acc_values':
+        vals = [v for g in c['groups'] for _, v in g['meas']]
+        floats = sorted({_vk(v) for v in vals if isinstance(_pv(v), float)})
+        # what DICOM encoding makes of Numeric Value: the number its DS string says (identity when not encoded)
+        tbl = sorted({(_vk(v), vkey(float(_ds_str(v)))) for v in vals}) if c['io'] in ENCODING_IO else []
+        return (f"(run_accessors_enc [{'; '.join(zlit(x) for x in floats)}] "
+                f"[{'; '.join(f'({zlit(a)}, {zlit(b)})' for a, b in tbl)}] {pre} {gs} {ocz(c['mname'])} {ocz(c['ename'])})")
     fs = '; '.join(f'run_queries pre gs {_coq_filter(f)}' for f in c['filters'])
     return f'(let gs := {gs} in let pre := {pre} in VL [{fs}])'
 
@@ -1897,14 +2118,20 @@ def _check_acc(c, out):
             if g['k'] != K and not _ambiguous(g):
                 return f'group {a[1]} of kind {g["k"]} returned by {K} query'
             seen[a[1]] = True
-            want = [g['tuid'], g['tid'], g['finding'], g['cat'], g['method'], g['sites'], g['meas'], g['evals'],
-                    [m for m in g['meas'] if c['mname'] is None or m[0] == c['mname']],
+            meas = [[n, _vk(v)] for n, v in g['meas']]     # exactly the numbers the group was constructed with
+            want = [g['tuid'], g['tid'], g['finding'], g['cat'], g['method'], g['sites'], meas, g['evals'],
+                    [m for m in meas if c['mname'] is None or m[0] == c['mname']],
                     [e for e in g['evals'] if c['ename'] is None or e[0] == c['ename']]]
             names = ['tracking_uid', 'tracking_identifier', 'finding_type', 'finding_category', 'method',
                      'finding_sites', 'get_measurements()', 'get_qualitative_evaluations()',
                      'get_measurements(name)', 'get_qualitative_evaluations(name)']
             for nme, x, w in zip(names, a[:10], want):
                 if x != w:
+                    if nme.startswith('get_measurements') and [m[0] for m in x] == [m[0] for m in w]:
+                        vals = [v for n, v in g['meas'] if nme.endswith('()') or c['mname'] is None or n == c['mname']]
+                        bad = [(repr(_pv(v)), repr(unkey(k))) for v, (_, k) in zip(vals, x) if k != _vk(v)]
+                        return (f'group {a[1]} (history of the report: {c.get("io")}): {nme} reports other VALUES than '
+                                f'the group was constructed with: (constructed, reported) = {bad}')
                     return f'group {a[1]}: {nme} = {x}, constructed with {w}'
             r = g['ref']
             if K == 'I':
@@ -1975,12 +2202,44 @@ def _check_acc_tree(c, out):
     return None
 
 
+def _check_num_tree(c, out):
+    """NUM items rewritten in memory: nothing but the measurement values may change, and a measurement reports its
+    Floating Point Value when it has one (the exact representation), else the number its Numeric Value says"""
+    sh = _num_shadow(c)
+    by_id = {g['tid']: (i, g) for i, g in enumerate(c['groups'])}
+    seen = []
+    for K, rows in zip('PVI', out):
+        if isinstance(rows, Err):
+            return f'unfiltered {K} query raised {rows}'
+        for a in rows:
+            if any(isinstance(x, Err) for x in a):
+                return f'an accessor raised on a group whose NUM items were rewritten: {a}'
+            if a[1] not in by_id:
+                return f'unknown group {a[1]}'
+            i, g = by_id[a[1]]
+            seen.append(a[1])
+            if g['k'] != K:
+                return f'group {a[1]} of kind {g["k"]} returned by {K} query'
+            if a[:6] != [g['tuid'], g['tid'], g['finding'], g['cat'], g['method'], g['sites']] or a[7] != g['evals']:
+                return f'group {a[1]}: accessors {a[:8]} differ from what it was constructed with'
+            want = [[n, vkey(fd if fd is not None else nv)] for (n, _), (nv, fd, _) in zip(g['meas'], sh[i])]
+            wantn = [m for m in want if c['mname'] is None or m[0] == c['mname']]
+            if a[6] != want or a[8] != wantn:
+                return (f'group {a[1]}: measurements {a[6]} / by name {a[8]}; (Numeric Value, Floating Point Value) '
+                        f'of its NUM items are {[(repr(x[0]), repr(x[1])) for x in sh[i]]}: expected {want} / {wantn}')
+    if sorted(seen) != sorted(by_id):
+        return f'groups returned by the unfiltered queries: {seen}'
+    return None
+
+
 def oracle(c, out):
     k = c['kind']
     if k in ('report_mem', 'report_doc', 'report_file', 'report_notid', 'refuse', 'report_codes', 'report_opts'):
         return _check_queries(c, out)
-    if k in ('acc', 'acc_codes'):
+    if k in ('acc', 'acc_codes', 'acc_values'):
         return _check_acc(c, out)
+    if k == 'acc_num_tree':
+        return _check_num_tree(c, out)
     if k == 'fixture':
         # unfiltered queries partition the measurement groups of the shipped documents
         row = out[0]
@@ -2031,6 +2290,10 @@ def nontrivial(c, out):
     k = c['kind']
     if k in ('acc', 'acc_codes'):
         return len(c['groups']) >= 2
+    if k == 'acc_values':     # some value does not survive as a DS string and the report was encoded
+        return c['io'] in ENCODING_IO and any(float(_ds_str(v)) != float(_pv(v)) for g in c['groups'] for _, v in g['meas'])
+    if k == 'acc_num_tree':   # some measurement has two different sources
+        return any(fd is not None and fd != nv for grp in _num_shadow(c) for nv, fd, _ in grp)
     if k == 'acc_tree':        # some group is returned and some accessor raises or some group is seen by no query
         rows = [a for r in out if not isinstance(r, Err) for a in r]
         return bool(rows) and (any(isinstance(x, Err) for a in rows for x in a) or len(rows) != len(c['groups']))
@@ -2056,6 +2319,18 @@ def shrink(c):
         return
     if 'groups' not in c:
         return
+    if 'nmuts' in c:          # the mutations address groups / measurements by position: only they are shrunk
+        for i in range(len(c['nmuts'])):
+            if len(c['nmuts']) > 1:
+                yield dict(c, nmuts=c['nmuts'][:i] + c['nmuts'][i + 1:])
+        if c.get('io') != 'mem':
+            yield dict(c, io='mem')
+        return
+    if c.get('kind') == 'acc_values':
+        for i, g in enumerate(c['groups']):
+            if len(g['meas']) > 1:
+                for m in g['meas']:
+                    yield dict(c, groups=c['groups'][:i] + [dict(g, meas=[m])] + c['groups'][i + 1:])
     if 'filters' in c and len(c['filters']) > 1:
         for i in range(len(c['filters'])):
             yield dict(c, filters=[c['filters'][i]])
